@@ -22,7 +22,7 @@ PROPS = {
         "outside": ["rendered message text", "minimum+1 overflow for n_times(usize::MAX).then()"],
     },
     "C01": {
-        "mirsym": ["eval_dyn", "assembler", "construction"],
+        "mirsym": ["call_path", "eval_dyn", "assembler", "construction"],
         "bounds": {"quick": "scan: K=3 patterns, all 27 verdict tables {reject,accept,error}^3, arbitrary 64-bit prior counts and ordered index; one step (state = counters, arbitrary => histories of any length); matcher downcast: all u8 x u8",
                    "thorough": "adds K=4 and the eval_dyn step with a 1-entry method table"},
         "assumptions": COMMON_KANI + ["predicates are modelled as an arbitrary verdict per pattern (the link matcher closure = predicate is C06)",
@@ -30,13 +30,13 @@ PROPS = {
         "outside": ["K > 4 patterns", "the matching! macro (C06)"],
     },
     "C02": {
-        "mirsym": ["builder_chains", "eval_dyn"],
+        "mirsym": ["builder_chains", "call_path", "eval_dyn"],
         "bounds": {"quick": "segment lookup: S<=4 segments, repeat counts all values < 2^60 including 0, call index all 2^64; next_responder from an arbitrary counter value"},
         "assumptions": COMMON_KANI + COMMON_MIR + ["builder chains: IntoReturn / IntoReturnOnce / IntoReturner conversions are environment calls that record which conversion ran (their behaviour is decided under C12/C17)"],
         "outside": ["sum of repeat counts >= 2^63", "more than 4 segments"],
     },
     "C04": {
-        "mirsym": ["assembler"],
+        "mirsym": ["assembler", "call_path", "builder_chains"],
         "bounds": {"quick": "owner lookup and one ordered step: 3 patterns of the called method with arbitrary increasing disjoint 64-bit slot ranges (empty ranges allowed), arbitrary global index, arbitrary prior counts"},
         "assumptions": COMMON_MIR + COMMON_KANI + ["std::thread::current()/panicking() replaced by the overlay's std_shim (Kani cannot compile thread::current())"],
         "outside": ["more than 3 ordered patterns per method in one step harness"],
@@ -61,7 +61,7 @@ PROPS = {
         "outside": ["errors racing from several threads", "message text", "the no_std `panicked` flag"],
     },
     "C07": {
-        "mirsym": ["eval_dyn"],
+        "mirsym": ["eval_dyn", "call_path"],
         "bounds": {"quick": "the complete decision table of eval_dyn: method table M=0..2 entries with symbolic keys and symbolic called type id x has_default_impl x partial_by_default x fallback mode x scan result {none, pattern 0, pattern 1, error} x responder available; one call from an arbitrary state"},
         "assumptions": COMMON_MIR + ["match_call_pattern / next_responder are replaced by their contracts, which the Kani units c01_scan_first_match, c04_in_order_step, c02_next_responder_step decide on the compiled code"],
         "outside": ["the generated match arms that act on Unmock / CallDefaultImpl (C15/C16)", "argument values (the scan result is symbolic instead)"],
@@ -95,5 +95,10 @@ PROPS = {
         "assumptions": COMMON_KANI + ["the reference is an independently written Rust match / == / != over the same arguments (printed by tools/gen_c06.py)",
                                       "the report list of MismatchReporter is created with reserved capacity under cfg(kani) (same contents)"],
         "outside": ["patterns outside family G6 (the macro runs inside rustc: programs are covered per instantiation)", "3 or more top-level alternatives do not compile at all in this version (observed, not a soundness issue)"],
+    },
+    "C17": {
+        "bounds": {"quick": "return-type family (16 methods of one generated trait: owned, Option<owned>, &T, &str, &'static T, Option<&T>, Option<&str>, Result<&T,E>, Result<&[T],NonClone>, Vec<&T> with 0/1/2 elements, 2- and 3-tuples, Poll<Option<&T>>, Poll<Result<&T,Clone>>, Vec<Result<&T,NonClone>>, Option<Result<&T,E>>); output kind = the one the macro chose; every variant, all leaf values, two or three requests"},
+        "assumptions": COMMON_KANI + ["element counts are constants per harness (0, 1, 2): a Vec of symbolic length is an allocation of symbolic size"],
+        "outside": ["return types outside the family; element counts above 3; nesting depth above 3"],
     },
 }
